@@ -10,6 +10,13 @@ ATTR = {"c": "child", "k": "kids", "b": "byname", "s": "group"}
 # listener machinery also uses as the suffix of its container-event traits
 ATTR_ALT = {"c": "sub_items_node", "k": "kid_items", "b": "line_items", "s": "set_items_grp"}
 FINAL = {"v": "value", "x": "aux"}
+# final 'm': the metadata name `+tag` (every trait with metadata `tag`: `value` only) in both APIs
+FINAL_NAME = {"v": "value", "x": "aux", "m": "+tag"}
+
+
+def final_matches(final, t):
+    """Does a change of scalar t ('v' / 'x') fall under the final part of the name?"""
+    return t == ("v" if final == "m" else final)
 KNOWN_ITEMS_SIG = "intermediate-items-unreported:first-link-src-handler"
 
 
@@ -34,7 +41,7 @@ def node_class(eq=False, falsy="", renamed=False):
     if key not in _CLASSES:
         from traits.api import HasTraits, Int, Instance, List, Dict, Set, Str
         A = ATTR_ALT if renamed else ATTR
-        body = {"value": Int, "aux": Int, A["c"]: Instance(HasTraits), A["k"]: List(Instance(HasTraits)),
+        body = {"value": Int(tag=True), "aux": Int, A["c"]: Instance(HasTraits), A["k"]: List(Instance(HasTraits)),
                 A["b"]: Dict(Str, Instance(HasTraits)), A["s"]: Set(Instance(HasTraits))}
         if eq:
             def __eq__(self, other):
@@ -84,11 +91,12 @@ def parse_name(s):
     while w and w[0] in FLAGS:
         w = w[1:]
     arity = int(w[0])
-    links = [(t[0], t[1] == ".") for t in w[1:-1]]
+    # a link is one attribute letter, or several distinct ones = the group `[a,b]`, then the connector
+    links = [(t[:-1], t[-1] == ".") for t in w[1:-1]]
     for t in w[1:-1]:
-        if len(t) != 2 or t[0] not in ATTR or t[1] not in ".:":
+        if len(t) < 2 or any(x not in ATTR for x in t[:-1]) or len(set(t[:-1])) != len(t[:-1]) or t[-1] not in ".:":
             raise ValueError(s)
-    if arity not in (0, 1, 2, 3, 4) or w[-1] not in FINAL or not links:
+    if arity not in (0, 1, 2, 3, 4) or w[-1] not in FINAL_NAME or not links:
         raise ValueError(s)
     return arity, links, w[-1]
 
@@ -96,18 +104,17 @@ def parse_name(s):
 def legacy_name(links, final, A=ATTR):
     out = ""
     for a, notify in links:
-        out += A[a] + ("." if notify else ":")
-    return out + FINAL[final]
+        out += (A[a] if len(a) == 1 else "[" + ",".join(A[x] for x in a) + "]") + ("." if notify else ":")
+    return out + FINAL_NAME[final]
 
 
 def observe_expr(links, final, A=ATTR):
     out = ""
     for a, notify in links:
         c = "." if notify else ":"
-        out += A[a] + c
-        if a in "kbs":
-            out += "items" + c
-    return out + FINAL[final]
+        parts = [A[x] + (c + "items" if x in "kbs" else "") for x in a]
+        out += (parts[0] if len(a) == 1 else "[" + ",".join(parts) + "]") + c
+    return out + FINAL_NAME[final]
 
 
 def parse_ops(s):
@@ -140,6 +147,8 @@ class Shadow:
         return ids
 
     def targets(self, a, o):
+        if len(a) > 1:
+            return [c for x in a for c in self.targets(x, o)]
         if a == "c":
             return [] if self.child[o] is None else [self.child[o]]
         if a == "k":
@@ -359,6 +368,13 @@ def random_name(rng):
     n = rng.choice([1, 1, 2, 2, 2, 3])
     links = [(rng.choice("ckbckbs"), rng.random() < 0.6) for _ in range(n)]
     final = "v" if rng.random() < 0.85 else "x"
+    r = rng.random()
+    if r < 0.10:
+        # a group `[a,b]` at one position (ListenerGroup: the items share the next ListenerItem); implementation + oracle
+        k = rng.randrange(n)
+        links[k] = ("".join(rng.sample("ckbs", rng.choice([2, 2, 3]))), links[k][1])
+    elif r < 0.14:
+        final = "m"      # `+tag`: the wildcard / metadata branch of ListenerItem.register
     arity = rng.choice([4, 4, 4, 4, 4, 4, 3, 3, 0, 0, 0, 1, 2])
     if arity in (1, 2):
         # DST signatures: only with ':' links (no intermediate notification, so handle_dst /
@@ -403,7 +419,7 @@ def dst_case(rng):
 
 
 def show_name(arity, links, final, mode="I"):
-    return ("#" if arity in (1, 2) else "") + "".join(f + " " for f in mode if f in "EDKFZN") + " ".join([str(arity)] + [a + ("." if n else ":") for a, n in links] + [final])
+    return ("#" if (arity in (1, 2) or final == "m" or any(len(a) > 1 for a, _ in links)) else "") + "".join(f + " " for f in mode if f in "EDKFZN") + " ".join([str(arity)] + [a + ("." if n else ":") for a, n in links] + [final])
 
 
 def show_ops(ops):
@@ -430,7 +446,7 @@ def random_case(rng, name=None, cap=26):
     eq = "E" in mode
     if eq:
         # value-equality nodes are unhashable: no Set links
-        links = [("k" if a == "s" else a, nt) for a, nt in links]
+        links = [(a.replace("s", "k") if "k" not in a else a.replace("s", ""), nt) for a, nt in links]
     if ("D" in mode or "K" in mode) and name is None:
         # deferred registrations matter for container first links
         if rng.random() < 0.7:
@@ -454,7 +470,7 @@ def random_case(rng, name=None, cap=26):
                 # on-path: an object reachable at depth k, the attribute the name follows there
                 ks = [k for k in range(len(links)) if lv[k]]
                 k = max(ks) if rng.random() < 0.5 else rng.choice(ks)
-                op = _op_on(rng, sh, rng.choice(lv[k]), links[k][0], cap, eq)
+                op = _op_on(rng, sh, rng.choice(lv[k]), rng.choice(links[k][0]), cap, eq)
             elif r < 0.80:
                 if sh.stale and rng.random() < 0.3:
                     o_, a_ = rng.choice(sorted(sh.stale))
@@ -668,6 +684,8 @@ class World:
 
     # ---- reachability on the real object graph (never materialises a default) ----
     def targets(self, a, o):
+        if len(a) > 1:
+            return [c for x in a for c in self.targets(x, o)]
         d = o.__dict__
         if a == "c":
             v = d.get(self.A["c"])
@@ -702,8 +720,9 @@ class World:
 
     # ---- white box -----------------------------------------------------------
     def active(self):
-        return "".join("[%s]" % ",".join(str(i) for i in sorted(self.idof.get(id(o), -1) for o in it.active.keys()))
-                       for it in self.chain)
+        return "".join("[%s]" % ",".join(str(i) for i in sorted(self.idof.get(id(o), -1) for it in its
+                                                                 for o in it.active.keys()))
+                       for its in self.chain)
 
     def hooks(self):
         from traits.trait_notifiers import TraitChangeNotifyWrapper
@@ -725,7 +744,8 @@ class World:
                     else:
                         ref = n.object
                         item = ref() if ref is not None else None
-                        kinds.append("T%d" % self.chain.index(item) if item in self.chain else "X")
+                        depth = [d for d, its in enumerate(self.chain) if any(item is x for x in its)]
+                        kinds.append("T%d" % depth[0] if depth else "X")
                 if kinds:
                     parts.append("%s[%s]" % (short, ",".join(kinds)))
             if parts:
@@ -744,15 +764,15 @@ class World:
                 self.pre_registered = False    # done by the decorator while the root was created
             elif self.deferred:
                 first = self.levels()[1]
-                if self.links[0][0] in "kb" and first:
+                if any(x in "kbs" for x in self.links[0][0]) and first:
                     self.late = set(first)
                 self.root.on_trait_change(self.lh, name, deferred=True)
             else:
                 self.root.on_trait_change(self.lh, name)
             it = self.root.__dict__["__traits_listener__"][name][-1].listener
-            self.chain = []
+            self.chain = []        # per depth: the ListenerItem, or the items of the ListenerGroup (they share `next`)
             while it is not None:
-                self.chain.append(it)
+                self.chain.append(list(getattr(it, "items", None) or [it]))
                 it = it.next
             self.root.observe(self.oh, observe_expr(self.links, self.final, self.A))
             self.registered = True
@@ -992,6 +1012,7 @@ def _run(arity, links, final, ops, mode=""):
     tags.add("registration:" + ("decorator" if w.pre_registered else "deferred-method" if "D" in mode else
                                 "deferred-kwarg" if "K" in mode else "plain"))
     tags.add("links%d" % n)
+    tags.add("name:" + ("group" if any(len(a) > 1 for a, _ in links) else "plain") + ("+metadata" if final == "m" else ""))
     ever_registered = False
     dst_dot = arity in (1, 2) and links[0][1]
     if dst_dot and (len(links) != 1 or links[0][0] != "c"):
@@ -1027,14 +1048,14 @@ def _run(arity, links, final, ops, mode=""):
             exp = []
             if was_registered and changed:
                 if tshort in ("v", "x"):
-                    if tshort == final and oid in before[n]:
+                    if final_matches(final, tshort) and oid in before[n]:
                         exp = [(oid, tshort)]
                 else:
                     for k, (a, notify) in enumerate(links):
-                        if notify and tshort in (a, a + "i") and oid in before[k]:
+                        if notify and any(tshort in (x, x + "i") for x in a) and oid in before[k]:
                             exp.append((oid, tshort))
                             tags.add("report:%s@%d" % (tshort, k))
-                    if not exp and any(tshort in (a, a + "i") and oid in before[k] for k, (a, _) in enumerate(links)):
+                    if not exp and any(tshort in (x, x + "i") and oid in before[k] for k, (a, _) in enumerate(links) for x in a):
                         tags.add("quiet:%s" % tshort)
             kind = "final" if tshort in ("v", "x") else "intermediate"
             if not was_registered:
@@ -1048,7 +1069,7 @@ def _run(arity, links, final, ops, mode=""):
                 if sorted(L) != sorted(exp):
                     sig = "%s:legacy-%s:%s" % (kind, "missing" if len(L) < len(exp) else "spurious", tshort)
                     if (kind == "intermediate" and not L and tshort in ("ki", "bi", "si") and arity in (3, 4)
-                            and links[0][1] and tshort == links[0][0] + "i" and oid == 0
+                            and links[0][1] and tshort[:-1] in links[0][0] and oid == 0
                             and not any(oid in before[k] for k in range(1, n))):
                         sig = KNOWN_ITEMS_SIG
                         tags.add("known:items-first-link")
@@ -1099,7 +1120,7 @@ def _run(arity, links, final, ops, mode=""):
                     if (o_, t_) != (i, t):
                         hits.append(_hit("final:observe-args", "observe event (%s, %s) for a bump of %d.%s" % (o_, t_, i, t)))
             probe[t] = (lg, ob)
-            exp = sorted(lv[n]) if (w.registered and t == final) else []
+            exp = sorted(lv[n]) if (w.registered and final_matches(final, t)) else []
             late_now = w.under_late()
 
             def only_late(got, want):
